@@ -7,35 +7,108 @@ import itertools
 SUB = None  # per-case default for `sub` (set by a property's run_impl around its calls)
 
 
-def ga(rows, cls=None, sub=None):
-    """rows [[chrom,s,e,gene],...] -> GenomicArray.  With `sub` (an int seed) the same table is produced as a
-    SUBSET of a larger one (junk rows interleaved, then removed with a boolean mask), so that its pandas index
-    labels differ from the row positions -- as for any table obtained by filtering (targets only, one
-    chromosome, drop_low_coverage, in_range ...)."""
-    from skgenome import GenomicArray
-
-    cls = cls or GenomicArray
-    cols = ["chromosome", "start", "end", "gene"]
-    if sub is None:
-        sub = SUB
-    if sub is None or not rows:
-        return cls.from_rows([tuple(r) for r in rows], columns=cols)
+def _sub_rows(rows, sub):
+    """rows interleaved with junk copies + the mask that removes the junk again (see `ga`)"""
     import random
-    import numpy as np
     rng = random.Random(sub)
     big, mask = [], []
     for r in rows:
         for _ in range(rng.choice([0, 1, 1, 2, 3])):
             j = rng.choice(rows)
-            big.append((j[0], j[1], j[2], "junk"))
+            big.append((j[0], j[1], j[2], "junk") + tuple(j[4:]))
             mask.append(False)
         big.append(tuple(r))
         mask.append(True)
     if all(mask):
-        big.insert(0, (rows[0][0], rows[0][1], rows[0][2], "junk"))
+        big.insert(0, (rows[0][0], rows[0][1], rows[0][2], "junk") + tuple(rows[0][4:]))
         mask.insert(0, False)
-    arr = cls.from_rows(big, columns=cols)
-    return arr[np.array(mask)]
+    return big, mask
+
+
+def ga(rows, cls=None, sub=None, rep=None):
+    """rows [[chrom,s,e,gene],...] -> GenomicArray.  With `sub` (an int seed) the same table is produced as a
+    SUBSET of a larger one (junk rows interleaved, then removed with a boolean mask), so that its pandas index
+    labels differ from the row positions -- as for any table obtained by filtering (targets only, one
+    chromosome, drop_low_coverage, in_range ...).
+
+    `rep` (optional dict) chooses another REPRESENTATION of the same table (all keys optional):
+      extra    {name: [value per row]} or [names]: additional columns (names alone: log2/weight floats, probes/
+               depth ints derived from the row position)
+      order    int seed: the columns are permuted (required columns anywhere, also end before start)
+      fcoord   True: start/end handed over as float64 (the constructor recasts them)
+      objchrom True: chromosome (and gene) columns of dtype object instead of the pandas string dtype
+      nogene   True: no gene column at all (3-column BED-like table)
+      cls      "cna": a cnvlib CopyNumArray (adds a log2 column if `extra` has none)
+      ctor     "frame" (default with rep): cls(DataFrame); "rows": cls.from_rows; "columns": cls.from_columns
+               (which re-orders the columns: chromosome, start, end, then alphabetical)
+    """
+    from skgenome import GenomicArray
+
+    cols = ["chromosome", "start", "end", "gene"]
+    if sub is None:
+        sub = SUB
+    if not rep:
+        cls = cls or GenomicArray
+        if sub is None or not rows:
+            return cls.from_rows([tuple(r) for r in rows], columns=cols)
+        import numpy as np
+        big, mask = _sub_rows(rows, sub)
+        arr = cls.from_rows(big, columns=cols)
+        return arr[np.array(mask)]
+    import random
+    import numpy as np
+    import pandas as pd
+    if rep.get("cls") == "cna":
+        from cnvlib.cnary import CopyNumArray
+        cls = CopyNumArray
+    cls = cls or GenomicArray
+    extra = rep.get("extra") or {}
+    if not isinstance(extra, dict):
+        extra = {nm: None for nm in extra}
+    if rep.get("cls") == "cna" and "log2" not in extra:
+        extra = dict(extra, log2=None)
+    names = list(extra)
+    full = []
+    for k, r in enumerate(rows):
+        vals = []
+        for nm in names:
+            if extra[nm] is not None:
+                v = extra[nm][k]
+                v = float("nan") if v is None else v
+            elif nm in ("probes", "depth"):
+                v = (k * 7 + 3) % 11
+            else:
+                v = ((k * 5 + 2) % 17 - 8) / 8.0
+            vals.append(v)
+        full.append(tuple(r[:4]) + tuple(vals))
+    mask = None
+    if sub is not None and rows:
+        full, mask = _sub_rows(full, sub)
+    allcols = cols + names
+    df = pd.DataFrame.from_records(full, columns=allcols) if full else pd.DataFrame(
+        {c: pd.Series([], dtype=("int64" if c in ("start", "end", "probes", "depth") else
+                                  "float64" if c in names else "str")) for c in allcols})
+    if rep.get("nogene"):
+        df = df.drop(columns=["gene"])
+        allcols = [c for c in allcols if c != "gene"]
+    if rep.get("fcoord"):
+        df = df.astype({"start": "float64", "end": "float64"})
+    if rep.get("objchrom"):
+        df = df.astype({c: object for c in ("chromosome", "gene") if c in df.columns})
+    if rep.get("order") is not None:
+        perm = list(allcols)
+        random.Random(rep["order"]).shuffle(perm)
+        df = df[perm]
+    ctor = rep.get("ctor", "frame")
+    if ctor == "rows":
+        arr = cls.from_rows(list(df.itertuples(index=False, name=None)), columns=list(df.columns))
+    elif ctor == "columns":
+        arr = cls.from_columns({c: df[c].values for c in df.columns})
+    else:
+        arr = cls(df)
+    if mask is not None:
+        arr = arr[np.array(mask)]
+    return arr
 
 
 def rows_of(garr):
